@@ -26,8 +26,8 @@ namespace math
 
 \ingroup fcpptmath
 
-The same as #fcppt::math::ceil_div, except in case where dividend
-is negative, dividend / divisor is returned.
+The same as #fcppt::math::ceil_div, but for signed types: the exact quotient
+is rounded up, whatever the signs of dividend and divisor are.
 
 \tparam T A signed type
 */
@@ -38,15 +38,15 @@ fcppt::optional::object<T> ceil_div_signed(T const &_dividend, T const &_divisor
 
   T const zero{fcppt::literal<T>(0)};
 
-  return (_dividend < zero)
-             ? fcppt::optional::make_if(
-                   _divisor != zero, [_dividend, _divisor] { return _dividend / _divisor; })
-             : fcppt::optional::map(
-                   fcppt::math::ceil_div(
-                       fcppt::cast::to_unsigned(_dividend), fcppt::cast::to_unsigned(_divisor)),
-                   [](std::make_unsigned_t<T> const _result) {
-                     return fcppt::cast::to_signed(_result);
-                   });
+  return fcppt::optional::make_if(_divisor != zero, [_dividend, _divisor, zero] {
+    T const quotient{_dividend / _divisor};
+
+    // Integer division truncates, which already is the ceiling if the exact
+    // quotient is negative. Round up only if both operands have the same sign.
+    return (_dividend % _divisor != zero && (_dividend < zero) == (_divisor < zero))
+               ? quotient + fcppt::literal<T>(1)
+               : quotient;
+  });
 }
 
 }
